@@ -10,42 +10,42 @@ CHECKS = {
     'C01': (
         'exploration',
         'property-based testing: Hypothesis-generated and exhaustively enumerated (program, schedule) cases on a harness-owned event loop; trace invariant over the lifecycle graph',
-        'Every announced transition and every state sampled after every single event-loop callback is checked against the documented lifecycle graph, for all placements of up to K control requests (exhaustive for K<=2 quick / K<=3 thorough on 9 catalogue programs, Hypothesis-generated programs beyond), each run ending with a post-mortem burst of every control call and all late callbacks (also applied to a copy loaded from the terminal checkpoint); requests are additionally issued from 17 lifecycle-hook sites and against workchains; cleanups may raise, the caller may cancel the stepping task and step again, one-shot state-event observers unregister themselves while being called; the sampled state must equal the last announced state and the outcome (exception object, kill text, result) of a terminated process must never change. Exploration is the right level: the property is a safety invariant over schedules that the harness can own completely for this single-threaded asyncio library.',
+        'Every announced transition and every state sampled after every single event-loop callback is checked against the documented lifecycle graph, for all placements of up to K control requests (exhaustive for K<=2 quick / K<=3 thorough on 9 catalogue programs, Hypothesis-generated programs beyond), each run ending with a post-mortem burst of every control call and all late callbacks (also applied to a copy loaded from the terminal checkpoint); requests are additionally issued from 17 lifecycle-hook sites and against workchains; cleanups may raise, the caller may cancel the stepping task and step again, one-shot state-event observers unregister themselves while being called, the process may be close()d while live, steps may return Kill() without a message; the sampled state must equal the last announced state and the outcome (exception object, kill text, result) of a terminated process must never change. Exploration is the right level: the property is a safety invariant over schedules that the harness can own completely for this single-threaded asyncio library.',
         'Trusts the StepLoop (FIFO execution of asyncio ready handles, external requests injected between two callbacks) and the public observers (state, has_terminated, ENTERED_STATE callbacks). Raising lifecycle hooks are excluded (C03).',
         'DESIGN.md section 3 C01',
     ),
     'C02': (
         'exploration',
         'property-based testing: generated/enumerated (program, schedule, listener plan) cases on a harness-owned event loop; agreement matrix over all outcome views plus a per-callback future/terminated invariant',
-        'After every single event-loop callback the future-done => terminated invariant is checked; at the end result(), successful(), is_successful, killed(), killed_msg(), exception(), future(), listener notifications, cleanups, closedness and done-ness of the step_until_terminated() task are compared with each other and with what the program returned/raised and which kill texts were issued. Exhaustive for K<=2 (quick) / K<=3 and K=4 in one window (thorough) requests on 7 catalogue programs plus listener-issued and hook-issued calls, with one of three cleanups optionally raising, a listener registered twice, a cleanup registering a follow-up cleanup, and the caller cancelling the task that runs step_until_terminated() and stepping the process again later (scope tasks); Hypothesis-generated programs beyond.',
+        'After every single event-loop callback the future-done => terminated invariant is checked; at the end result(), successful(), is_successful, killed(), killed_msg(), exception(), future(), listener notifications, cleanups, closedness and done-ness of the step_until_terminated() task are compared with each other and with what the program returned/raised and which kill texts were issued. Exhaustive for K<=2 (quick) / K<=3 and K=4 in one window (thorough) requests on 7 catalogue programs plus listener-issued and hook-issued calls, with one of three cleanups optionally raising, a listener registered twice, a cleanup registering a follow-up cleanup, and the caller cancelling the task that runs step_until_terminated() and stepping the process again later (scope tasks), and listeners that close() the process from its termination notification; Hypothesis-generated programs beyond.',
         'Trusts the StepLoop (FIFO execution of asyncio ready handles, external requests injected between two callbacks; OS-thread races out of scope) and the public observers. Lifecycle hooks do not raise (C03).',
         'DESIGN.md section 3 C02',
     ),
     'C04': (
         'exploration',
         'property-based testing: small-scope exhaustive enumeration + Hypothesis over (program, schedule of pause/play/kill/resume/future-cancel, self-directed calls, listener-issued calls); tick-agnostic trace predicates and a probing kill from every live end configuration',
-        'Every kill issued on a live process must not raise, must end the process KILLED (EXCEPTED only with an exception the program itself raised), its return value/future must resolve True exactly when KILLED, the text must be recorded, future().cancel() must behave like kill(), and from every live end configuration one more kill() must terminate the process. Exhaustive over the 5-request alphabet for K<=2 (quick) / K<=3 (thorough) at all tick placements on 6 catalogue programs, all in-step call sequences of length <=2/3, and listener-issued calls at 4 notifications; workchains awaiting harness futures; processes recreated from a checkpoint mid-schedule (reload); the caller cancelling the stepping task and stepping again around the kill (tasks); a step failing after the kill request must end EXCEPTED and no step may be entered after a kill().',
+        'Every kill issued on a live process must not raise, must end the process KILLED (EXCEPTED only with an exception the program itself raised), its return value/future must resolve True exactly when KILLED, the text must be recorded, future().cancel() must behave like kill(), and from every live end configuration one more kill() must terminate the process. Exhaustive over the 5-request alphabet for K<=2 (quick) / K<=3 (thorough) at all tick placements on 6 catalogue programs, all in-step call sequences of length <=2/3, and listener-issued calls at 4 notifications; workchains awaiting harness futures; processes recreated from a checkpoint mid-schedule (reload); the caller cancelling the stepping task and stepping again around the kill, or cancelling the future a pending kill() returned (tasks); raising cleanups; an application-defined RUNNING state whose interrupt() reaches into the step (interruptible); a step failing after the kill request must end EXCEPTED and no step may be entered after a kill().',
         'Trusts the StepLoop (FIFO execution of asyncio ready handles, external requests injected between two callbacks; OS-thread races out of scope) and the public observers. Lifecycle hooks do not raise (C03).',
         'DESIGN.md section 3 C04',
     ),
     'C05': (
         'exploration',
         'property-based testing: metamorphic twin-run oracle (run with pause/play/resume requests vs the uninterrupted run with the same logical wake-ups), small-scope exhaustive + Hypothesis',
-        'The executed step sequence with arguments, outputs, final state, result and final status must equal those of the twin run; no step entry or resumption may observe paused=True; pause()/play() never raise; play() leaves the process un-paused and it stays so until the next pause request; a pause that is not withdrawn takes effect before any further step; the status present before a pause is restored by the play that ends it. Exhaustive for K<=2 (quick) / K<=3 and K=4 on waits (thorough), plus workchains, pause/play around a termination, and a save/recreate in the middle of the schedule (reload), which must be as transparent as the pause itself.',
+        'The executed step sequence with arguments, outputs, final state, result and final status must equal those of the twin run; no step entry or resumption may observe paused=True; pause()/play() never raise; play() leaves the process un-paused and it stays so until the next pause request; a pause that is not withdrawn takes effect before any further step; the status present before a pause is restored by the play that ends it. Exhaustive for K<=2 (quick) / K<=3 and K=4 on waits (thorough), plus workchains, pause/play around a termination, and a save/recreate in the middle of the schedule (reload), which must be as transparent as the pause itself; the caller may cancel the future a pending pause() returned (withdraw), after which a later pause must work.',
         'Trusts the StepLoop (FIFO execution of asyncio ready handles, external requests injected between two callbacks; OS-thread races out of scope) and the public observers. Lifecycle hooks do not raise (C03).' + ' Steps are deterministic functions of their arguments (generated programs guarantee it).',
         'DESIGN.md section 3 C05',
     ),
     'C06': (
         'exploration',
         'property-based testing: exhaustive enumeration of all orders and tick gaps of wake-up events versus pause/play requests, plus Hypothesis; liveness checked as quiescence; twin-run reference for exactly-once delivery',
-        'After all enabling events were delivered, the process was played and the loop is empty, the process must not be WAITING; the continuation must have run exactly once with the first resume value (compared with the twin run; the enumerated values include None, which is a value and not the absence of one); no exception may reach the loop handler. The completion phase never re-delivers a wake-up, so a lost one cannot be masked. Workchains awaiting futures and launched children are included, also with failing or killed items around pause/play, and 2-4 waiting processes on one loop (pair scopes): every process continues with exactly the values sent to it.',
+        'After all enabling events were delivered, the process was played and the loop is empty, the process must not be WAITING; the continuation must have run exactly once with the first resume value (compared with the twin run; the enumerated values include None, which is a value and not the absence of one); no exception may reach the loop handler. The completion phase never re-delivers a wake-up, so a lost one cannot be masked. Workchains awaiting futures and launched children are included, also with failing or killed items around pause/play, and 2-4 waiting processes on one loop (pair scopes): every process continues with exactly the values sent to it; the stepping task may be cancelled around the wake-up and the process stepped again (tasks).',
         'Trusts the StepLoop (FIFO execution of asyncio ready handles, external requests injected between two callbacks; OS-thread races out of scope) and the public observers. Lifecycle hooks do not raise (C03).',
         'DESIGN.md section 3 C06',
     ),
     'C03': (
         'fault_enumeration',
         'fault injection driven by property-based generation: complete enumeration of (hook / step function / callback / listener notification, occurrence, before|after super()) fault points per scenario, one injected fault per run, per-fault-class oracle',
-        'For 17 catalogue scenarios (plain, pause/play, pause before start, kill while waiting, kill before start, async with outputs and callbacks, async with pause and kill, Kill command, kill while paused in two shapes, callback while paused, and six in which a listener or a hook of the process requests a kill or pause during a transition) every fault point counted by a fault-free dry run is executed once with the fault injected: construction-time hooks must propagate from the constructor; pause/play hook faults must reach the requester and leave the process controllable (a further pause() is probed); listener faults and late callbacks must change nothing; every other fault must end EXCEPTED with exactly the injected exception on exception() and future() (whose exception must have been retrieved), closed, stepping task done, nothing escaped to the loop. Hypothesis adds generated scenarios with a drawn fault point.',
+        'For 17 catalogue scenarios (plain, pause/play, pause before start, kill while waiting, kill before start, async with outputs and callbacks, async with pause and kill, Kill command, kill while paused in two shapes, callback while paused, six in which a listener or a hook of the process requests a kill or pause during a transition, and two with a raising cleanup) every fault point counted by a fault-free dry run is executed once with the fault injected: construction-time hooks must propagate from the constructor; pause/play hook faults must reach the requester and leave the process controllable (a further pause() is probed); listener faults and late callbacks must change nothing; every other fault must end EXCEPTED with exactly the injected exception on exception() and future() (whose exception must have been retrieved), closed, stepping task done, nothing escaped to the loop. Hypothesis adds generated scenarios with a drawn fault point.',
         'One injected fault per run and no other failure in it. The injector is an override in the generated class that calls super(); faults are plain Exception subclasses. Known finding KF-C03-1 (fault after close()) is excluded by signature and counted in the evidence.',
         'DESIGN.md section 3 C03',
     ),
@@ -59,28 +59,28 @@ CHECKS = {
     'C09': (
         'exploration',
         'property-based testing against an independent reference interpreter of the outline language (model-based), Hypothesis-generated ASTs plus a bounded-exhaustive small family',
-        'Generated WorkChain classes are compiled from outline ASTs (steps, if_/elif_/else_, while_, return_, return_(code), nested to depth 3/4) with generated predicate truth sequences and step return sequences; the ordered list of every predicate and step call, the final state and result() must equal those of a 60-line recursive interpreter that shares no code with plumpy; steps may additionally register completed awaitables through to_context(), which does not change the denoted program.',
+        'Generated WorkChain classes are compiled from outline ASTs (steps, if_/elif_/else_, while_, return_, return_(code), nested to depth 3/4) with generated predicate truth sequences and step return sequences; the ordered list of every predicate and step call, the final state and result() must equal those of a 60-line recursive interpreter that shares no code with plumpy; steps may additionally register completed awaitables through to_context(), which does not change the denoted program; predicates may return lists, strings, tuples, ints or None instead of booleans.',
         'Bodies are non-empty (implicit precondition). Falling off the outline right after a ToContext-returning step accepts None or that mapping. Call counters live in ctx, predicates and steps are otherwise pure.',
         'DESIGN.md section 3 C09',
     ),
     'C10': (
         'exploration',
         'property-based testing: exhaustive enumeration of completion orders / awaitable kinds / registration ways / outcome mixes for small n plus Hypothesis; barrier predicate sampled at the entry of the next outline step',
-        'At the entry of the step after the barrier every awaited future must be done and ctx[key] must equal its result (child: its outputs; later assignment wins); with a failing or killed item the workchain must end EXCEPTED with the first such error (KilledError for a killed child) and the next step must never run; nothing may reach the loop exception handler. The registering step is also placed as the last step of if_/elif_/else_/while_ bodies (and an if_ inside a while_); the generated workchains override to_context(), through which every registration must pass; failing items may carry falsy exception instances.',
+        'At the entry of the step after the barrier every awaited future must be done and ctx[key] must equal its result (child: its outputs; later assignment wins); with a failing or killed item the workchain must end EXCEPTED with the first such error (KilledError for a killed child) and the next step must never run; nothing may reach the loop exception handler. The registering step is also placed as the last step of if_/elif_/else_/while_ bodies (and an if_ inside a while_); the generated workchains override to_context(), through which every registration must pass; failing items may carry falsy exception instances; one key may be handed two awaitables in one step.',
         'Completions are injected between two event-loop callbacks on the harness-owned loop; children are real launched processes gated by the harness.',
         'DESIGN.md section 3 C10',
     ),
     'C07': (
         'exploration',
         'property-based testing: round-trip oracle (save, load, save = save; loaded accessors = original accessors) at every state entry and paused point, through three media and two loader configurations',
-        'Generated process programs (nested inputs, nested/dynamic outputs, wait msg/data, continuation args and kwargs over JSON scalars, nested containers, tuples and UUIDs; finished/unsuccessful/excepted/killed endings; pause/kill schedules) and workchain outlines are checkpointed at every ENTERED_STATE and every paused quiescent point; checkpoints are also taken from inside 8 lifecycle hooks, for a class with a non-identity input/output codec and for declared inputs with non-constant callable defaults; each checkpoint travels as deep copy, pickle and YAML into a fresh event loop and is saved again: the four public ways of recreating a process (Bundle.unbundle, Savable.load, recreate_from with and without a context) take turns and one loader configuration uses a loader that needs constructor arguments; bundles must be structurally identical (exceptions by type+args, traceback text ignored) and pid/state/raw_inputs/inputs/outputs/ctx/status/paused/creation_time/outcome accessors equal.',
+        'Generated process programs (nested inputs, nested/dynamic outputs, wait msg/data, continuation args and kwargs over JSON scalars, nested containers, tuples and UUIDs; finished/unsuccessful/excepted/killed endings; pause/kill schedules) and workchain outlines are checkpointed at every ENTERED_STATE and every paused quiescent point; checkpoints are also taken from inside 8 lifecycle hooks, for a class with a non-identity input/output codec and for declared inputs with non-constant callable defaults; each checkpoint travels as deep copy, pickle and YAML into a fresh event loop and is saved again: the four public ways of recreating a process (Bundle.unbundle, Savable.load, recreate_from with and without a context) take turns and one loader configuration uses a loader that needs constructor arguments; a load must leave the bundle it was given unchanged; bundles must be structurally identical (exceptions by type+args, traceback text ignored) and pid/state/raw_inputs/inputs/outputs/ctx/status/paused/creation_time/outcome accessors equal.',
         'tblib absent (traceback text ignored as the statement allows). A workchain WAITING on live futures is not savable and is counted, not judged. The custom loader is given in both save and load contexts.',
         'DESIGN.md section 3 C07',
     ),
     'C08': (
         'exploration',
         'property-based testing: metamorphic oracle (restored continuation chains = uninterrupted run), exhaustive over all single and double crash points of a catalogue plus Hypothesis-generated looping programs/outlines with up to 3 chained restores',
-        'The reference run is checkpointed at every state entry and at the entry of every step function (a crash inside a step, before it had any effect); programs share one mutable context value under two keys and one family uses a non-identity input/output codec, one is constructed without inputs; for each chain of <=3 crash points the instance is abandoned, the checkpoint deserialised (pickle / deep copy / YAML) into a fresh event loop and world, continued with the remaining wake-up values, checkpointed again and so on; the concatenated step+predicate trace with arguments, outputs, ctx, final state and result must equal the reference: nothing re-executed, nothing skipped.',
+        'The reference run is checkpointed at every state entry and at the entry of every step function (a crash inside a step, before it had any effect); programs share one mutable context value under two keys and one family uses a non-identity input/output codec, one is constructed without inputs, all classes override init() and read the restored context there; for each chain of <=3 crash points the instance is abandoned, the checkpoint deserialised (pickle / deep copy / YAML) into a fresh event loop and world, continued with the remaining wake-up values, checkpointed again and so on; the concatenated step+predicate trace with arguments, outputs, ctx, final state and result must equal the reference: nothing re-executed, nothing skipped.',
         'Steps depend only on persisted state (inputs, ctx, continuation arguments); every restore uses a fresh deserialisation; workchains here register no live awaitables.',
         'DESIGN.md section 3 C08',
     ),
@@ -94,14 +94,14 @@ CHECKS = {
     'C12': (
         'exploration',
         'model-based property testing: generated output specs x emission sequences, the reference model is consulted after every out() and at the finish',
-        'After each out(path, value): accepted by the model => no exception, outputs equal the model outputs, listeners saw (path, value); rejected => raises (ValueError for value/type/validator/undeclared-port rejections) and outputs unchanged. At the end: FINISHED, result() is the returned value, future().result() equals outputs, is_successful/successful() equal the model validation of the collected outputs. Whole mappings are emitted onto declared namespaces (with and without explicit ports), and a quarter of the cases use a spec class whose port namespaces have another namespace separator (__ or /); a port-less namespace may be declared a second time with other options (the last declaration counts).',
+        'After each out(path, value): accepted by the model => no exception, outputs equal the model outputs, listeners saw (path, value); rejected => raises (ValueError for value/type/validator/undeclared-port rejections) and outputs unchanged. At the end: FINISHED, result() is the returned value, future().result() equals outputs, is_successful/successful() equal the model validation of the collected outputs. Whole mappings are emitted onto declared namespaces (with and without explicit ports), and a quarter of the cases use a spec class whose port namespaces have another namespace separator (__ or /); a port-less namespace may be declared a second time with other options (the last declaration counts); the last emissions may be made from on_exit_running / on_finish, between the return of the last step and the entry of FINISHED.',
         'A path is never both leaf and namespace within a sequence; dynamic namespaces carry no namespace validator; a mapping emitted onto a declared namespace is the only emission into that subtree.',
         'DESIGN.md section 3 C12',
     ),
     'C14': (
         'exploration',
         'stateful / model-based property testing: generated operation histories applied to both persisters and to a dict model (differential + reference model)',
-        'Histories of up to 40 save/load/list/delete/delete-pid/progress/run-loaded/poison/heal operations (poison makes a live process unserialisable so that its saves are refused; a refused save is not a save; save_purging lets the process delete its own checkpoints from the store while it is being saved; a third of the pickle operations may go through a second PicklePersister object on the same directory) over 3 live processes, a never-saved pid and 3 tags, for int, UUID and string pids: every call result (or exception) of each persister must equal the dict model that keeps the harness-made deep copy from save time; loads must be structurally equal to that copy even after the live process progressed or a loaded copy was run to completion; listings compared as sets; the two persisters must agree. All pairs of operations after a fixed prefix are enumerated.',
+        'Histories of up to 40 save/load/list/delete/delete-pid/progress/run-loaded/poison/heal operations (poison makes a live process unserialisable so that its saves are refused; a refused save is not a save; save_purging lets the process delete its own checkpoints from the store while it is being saved; a third of the pickle operations may go through a second PicklePersister object on the same directory) over 3 live processes, a never-saved pid and 3 tags, for int, UUID and string pids (also strings differing only in non-word characters and integers whose decimal forms are prefixes of one another): every call result (or exception) of each persister must equal the dict model that keeps the harness-made deep copy from save time; loads must be structurally equal to that copy even after the live process progressed or a loaded copy was run to completion; listings compared as sets; the two persisters must agree. All pairs of operations after a fixed prefix are enumerated.',
         'pids/tags of one kind per history, separator-free strings; PicklePersister works in a private temporary directory, optionally a sub-directory whose name contains glob metacharacters ([ ] * ?) next to decoy directories a pattern reading of the name would match.',
         'DESIGN.md section 3 C14',
     ),
@@ -115,21 +115,21 @@ CHECKS = {
     'C19': (
         'exploration',
         'property-based testing: generated class shapes / member kinds / loader configurations with a round-trip oracle (members restored, save(recreated) = save(original)), a copy-at-save metamorphic test and loader-use counters',
-        'Generated inheritance chains (<=4 levels, sibling branch) of Savable classes declared with @auto_persist; members over plain nested values, bound methods, nested Savables (depth 3) and SavableFutures in all four states; default / global custom / per-save custom loaders (also with a different loader installed globally), with and without a loader in the load context. Checked: declaration sets per class (no leakage), saved keys, every declared member restored by kind, deep mutation of the original after save() leaves the saved state untouched, custom loader recorded at save is the one resolving the class at load, tampered identifiers raise ValueError. A third of the cases first save and load another object of the family (saved with a different loader configuration) through a caller-owned load context that is then reused; a quarter declare the members of one class in its persist() hook instead of the decorator; a quarter save further members by hand through save_members()/load_members() from overridden state methods; half of the custom-loader contexts are built with copyextend().',
+        'Generated inheritance chains (<=4 levels, sibling branch) of Savable classes declared with @auto_persist; members over plain nested values, bound methods, nested Savables (depth 3) and SavableFutures in all four states; default / global custom / per-save custom loaders (also with a different loader installed globally), with and without a loader in the load context. Checked: declaration sets per class (no leakage), saved keys, every declared member restored by kind, deep mutation of the original after save() leaves the saved state untouched, custom loader recorded at save is the one resolving the class at load, tampered identifiers raise ValueError. A third of the cases first save and load another object of the family (saved with a different loader configuration) through a caller-owned load context that is then reused; a quarter declare the members of one class in its persist() hook instead of the decorator; a quarter save further members by hand through save_members()/load_members() from overridden state methods; half of the custom-loader contexts are built with copyextend(); a quarter of the cases define the classes again under the same names between save and load (the new definitions must be used); a loader with an empty allow-list in the load context must make the load raise ValueError.',
         'Members are declared by the @auto_persist decorator, or by the persist() hook of a class whose ancestors declare nothing; custom loaders fall back to the default loader for foreign identifiers; futures are recreated on the loop given in the load context.',
         'DESIGN.md section 3 C19',
     ),
     'C20': (
         'exploration',
         'property-based testing with an innermost-outcome model: exhaustive enumeration of chain depth x terminal outcome x completion order x callback draining for three adapters, plus operation sequences on CancellableAction',
-        'For unwrap_kiwi_future, plum_to_kiwi_future+unwrap, Process._schedule_rpc and sync / async subscribers behind convert_to_comm every chain of depth <=3 (quick) / <=4 and sampled 5 (thorough) of futures resolving to futures is completed in every order: the adapter future must stay pending until all levels are connected and then carry exactly the innermost value object, exception object or cancellation. create_task must deliver the coroutine result/exception once, also when that exception is a concurrent.futures CancelledError / InvalidStateError instance. create_task, Process._schedule_rpc and LoopCommunicator deliveries made from a real second thread (joined before looking) must wake the loop. CancellableAction: function called at most once with the given arguments, outcome readable on the action, second run and run after cancel refused.',
+        'For unwrap_kiwi_future, plum_to_kiwi_future+unwrap, Process._schedule_rpc and sync / async subscribers behind convert_to_comm every chain of depth <=3 (quick) / <=4 and sampled 5 (thorough) of futures resolving to futures is completed in every order: the adapter future must stay pending until all levels are connected and then carry exactly the innermost value object, exception object or cancellation. create_task must deliver the coroutine result/exception once, also when that exception is a concurrent.futures CancelledError / InvalidStateError instance. create_task, Process._schedule_rpc and LoopCommunicator deliveries made from a real second thread (joined before looking) must wake the loop. create_task factories may raise before a coroutine exists. CancellableAction: function called at most once with the given arguments (also when it exits with a BaseException), outcome readable on the action, second run and run after cancel refused.',
         'Thread hand-offs are modelled as loop callbacks at generated positions; handler errors of _schedule_rpc are compared through __cause__.',
         'DESIGN.md section 3 C20',
     ),
     'C16': (
         'exploration',
         'property-based testing: differential twin-run oracle (remotely controlled process vs directly controlled twin at quiescent delivery points), handler-return-value comparison for in-step deliveries, broadcast-sequence invariant, injected broadcast faults',
-        'An in-process kiwipy LocalCommunicator (bare, or wrapped in LoopCommunicator) carries RPC pause/play/kill/status sent by RemoteProcessThreadController or RemoteProcessController and broadcast pause_all/play_all/kill_all. All sequences of <=2 (quick) / <=3 (thorough) messages at quiescent points are enumerated for 5 catalogue programs: the deduplicated observable history (state, paused, status, outputs), the final outcome and every unwrapped reply must equal those of a twin that receives the equivalent direct call. In-step deliveries compare the reply with the recorded return value of the very pause/play/kill call. The state_changed.<from>.<to> broadcasts recorded by an independent subscriber must match the entered states once each, in order, sent by the pid; each of the first 6 broadcasts is made to fail with each tolerated exception and must leave the run unchanged; two, three or all announcements from an index on fail as well; message texts include the empty string; a user cleanup may raise at termination and one more status request after termination must be unroutable; either subscription of the process (RPC or broadcast) is made to time out and the other channel must keep working like the direct call; the process classes override get_status_info, so a status reply must carry the subclass entries; terminated processes must be unroutable.',
+        'An in-process kiwipy LocalCommunicator (bare, or wrapped in LoopCommunicator) carries RPC pause/play/kill/status sent by RemoteProcessThreadController or RemoteProcessController and broadcast pause_all/play_all/kill_all. All sequences of <=2 (quick) / <=3 (thorough) messages at quiescent points are enumerated for 5 catalogue programs: the deduplicated observable history (state, paused, status, outputs), the final outcome and every unwrapped reply must equal those of a twin that receives the equivalent direct call. In-step deliveries compare the reply with the recorded return value of the very pause/play/kill call. The state_changed.<from>.<to> broadcasts recorded by an independent subscriber must match the entered states once each, in order, sent by the pid; each of the first 6 broadcasts is made to fail with each tolerated exception and must leave the run unchanged; two, three or all announcements from an index on fail as well; message texts include the empty string; a user cleanup may raise at termination and one more status request after termination must be unroutable; a listener may close() the process from its termination notification (the last transition is still announced); the class kill() may answer with a future of a future and every RPC reply must be a final value, never a future of the process loop; either subscription of the process (RPC or broadcast) is made to time out and the other channel must keep working like the direct call; the process classes override get_status_info, so a status reply must carry the subclass entries; terminated processes must be unroutable.',
         'LocalCommunicator stands in for RabbitMQ (synchronous delivery; cross-thread hand-offs become loop callbacks at harness-chosen positions). Error replies are compared through __cause__. Messages sent after termination are unroutable while the twin call is a no-op.',
         'DESIGN.md section 3 C16',
     ),
@@ -143,7 +143,7 @@ CHECKS = {
     'C18': (
         'exploration',
         'property-based testing over generated process sets and FIFO interleavings on the harness-owned loop; Process.current() sampled at every user-code point and between callbacks',
-        'Up to 4 generated processes with async steps, gates, launched children, re-entrantly executed processes (nest_asyncio on the harness loop, in dedicated worker processes), call_soon callbacks (also scheduled on the parent from the step of a child), children stepped in the task of the parent, control requests on children, self-pauses, kill/pause requests issued by own hooks of the process during a transition, and a coroutine callback that steps a helper process after its own process has closed run on one loop with staggered starts: current() must be the running process at every step entry, after every await, in every callback, after launch() and after a nested execute(), and in every lifecycle hook the run produces by itself; the harness must see None between callbacks. All pairs (quick) / triples (thorough) of 6 catalogue shapes at 3 start offsets are enumerated.',
+        'Up to 4 generated processes with async steps, gates, launched children, re-entrantly executed processes (nest_asyncio on the harness loop, in dedicated worker processes), call_soon callbacks (also scheduled on the parent from the step of a child), children stepped in the task of the parent, control requests on children, self-pauses, kill/pause requests issued by own hooks of the process during a transition, a coroutine callback that steps a helper process after its own process has closed, workchains whose awaited child fails or is killed, and a fire-and-forget child finalised by the garbage collector in the middle of another step run on one loop with staggered starts: current() must be the running process at every step entry, after every await, in every callback, after launch() and after a nested execute(), and in every lifecycle hook the run produces by itself; the harness must see None between callbacks. All pairs (quick) / triples (thorough) of 6 catalogue shapes at 3 start offsets are enumerated.',
         'Construction-time hooks and hooks triggered by external pause/play/kill run in the caller and are not sampled.',
         'DESIGN.md section 3 C18',
     ),
